@@ -1,6 +1,7 @@
 import FitModel.WriterPanic
 import FitProps.WriterLemmas
 import FitProps.WireLemmas
+import FitProps.WriterShortLemmas
 /-!
 No guard of `FitModel/WriterPanic.lean` ever fails: the invariant `Enc.Safe` (bufio's `n ≤ len(buf)`, the LRU's index
 ranges, `lastFileHeaderPos ≤ n`) holds for a new encoder, is kept by every operation under every answer schedule of the
@@ -624,5 +625,131 @@ theorem runStreamCalls_spec {σ : Type} (V : MsgValidator σ) (R : Sched) (sc : 
       obtain ⟨t, t1, t2, t3⟩ := runStreamCalls_spec V R sc o h hn ho cs _ (s.sequenceCompletedVR V R sc o h vs).2.1 b
       rw [t1]
       exact ⟨_, rfl, t2, by simp [t3]⟩
+
+/-! ### with cancellation points: on contract-abiding schedules the guarded model returns what `encodeCtxV` says -/
+
+theorem Run.ret_inj {α : Type} {a b : α} (h : (Run.ret a : Run α) = .ret b) : a = b := by injection h
+
+theorem encodeMessagesG_ctx (F : Faults) (o : Opts) : ∀ (ms : List WMsg) (c : Ctx) (e : Enc), e.Safe →
+    encodeMessagesG false (Sched.ofFaults F) o c e ms = .ret (encodeMessagesCtx F o c e ms)
+  | [], _, _, _ => rfl
+  | m :: ms, c, e, hs => by
+    unfold encodeMessagesG encodeMessagesCtx
+    split
+    · rfl
+    · obtain ⟨a, b⟩ := encodeMessageG_spec (Sched.ofFaults F) o e m hs
+      rw [a, encodeMessageR_ofFaults] at *
+      simp only [Run.bind]
+      split
+      · exact encodeMessagesG_ctx F o ms c.tick _ b
+      · rfl
+
+theorem dryPassG_ctx (o : Opts) : ∀ (ms : List WMsg) (c : Ctx) (s : EncState) (ds : Nat), LruOK s.lru →
+    dryPassG o c s ds ms = .ret (dryPassCtx o c s ds ms)
+  | [], _, _, _, _ => rfl
+  | m :: ms, c, s, ds, hl => by
+    unfold dryPassG dryPassCtx
+    split
+    · rfl
+    · obtain ⟨a, b⟩ := dryMessageG_spec o s m hl
+      rw [a]
+      simp only [Run.bind]
+      rw [dryPassG_ctx o ms c.tick _ _ b]
+
+theorem encodeBodyG_ctx (F : Faults) (o : Opts) (c : Ctx) (e : Enc) (h : Hdr) (ds : Nat) (ms : List WMsg) (hn : HdrNorm h)
+    (hs : e.Safe) : encodeBodyG false (Sched.ofFaults F) o c e h ds ms = .ret (encodeBodyCtx F o c e h ds ms) := by
+  obtain ⟨a, b⟩ := encodeFileHeaderG_spec (Sched.ofFaults F) e h ds hn hs
+  rw [encodeFileHeaderR_ofFaults] at a b
+  unfold encodeBodyG encodeBodyCtx
+  rw [a]
+  simp only [Run.bind]
+  split
+  · rfl
+  · obtain ⟨r, r1, r2, _⟩ := encodeMessagesG_spec (Sched.ofFaults F) o ms c _ b
+    have hm := encodeMessagesG_ctx F o ms c _ b
+    have hr : r = encodeMessagesCtx F o c (encodeFileHeader F e h ds).1 ms := Run.ret_inj (r1.symm.trans hm)
+    rw [hm]
+    simp only
+    split
+    · rfl
+    · obtain ⟨a3, _⟩ := encodeCRCG_spec (Sched.ofFaults F) _ (hr ▸ r2)
+      rw [a3, encodeCRCR_ofFaults]
+
+theorem encodeBodyG_ctx_safe (F : Faults) (o : Opts) (c : Ctx) (e : Enc) (h : Hdr) (ds : Nat) (ms : List WMsg) (hn : HdrNorm h)
+    (hs : e.Safe) : (encodeBodyCtx F o c e h ds ms).1.Safe := by
+  obtain ⟨r, r1, r2, _⟩ := encodeBodyG_spec (Sched.ofFaults F) o c e h ds ms hn hs
+  have := Run.ret_inj (r1.symm.trans (encodeBodyG_ctx F o c e h ds ms hn hs))
+  exact this ▸ r2
+
+theorem encodeDirectG_ctx (F : Faults) (o : Opts) (c : Ctx) (e : Enc) (h : Hdr) (ds0 : Nat) (ms : List WMsg) (hn : HdrNorm h)
+    (hs : e.Safe) : encodeDirectG (Sched.ofFaults F) o c e h ds0 ms = .ret (encodeDirectCtx F o c e h ds0 ms) := by
+  unfold encodeDirectG encodeDirectCtx
+  rw [encodeBodyG_ctx F o c e h ds0 ms hn hs]
+  simp only [Run.bind]
+  split
+  · rfl
+  · obtain ⟨a, _⟩ := updateFileHeaderG_spec (Sched.ofFaults F) _ h ds0 hn (encodeBodyG_ctx_safe F o c e h ds0 ms hn hs)
+    rw [a, updateFileHeaderR_ofFaults]
+
+theorem encodeEarlyG_ctx (cc : CtxCfg) (F : Faults) (o : Opts) (c : Ctx) (e : Enc) (h : Hdr) (ms : List WMsg) (hn : HdrNorm h)
+    (ho : 0 < o.lruCap) (hs : e.Safe) :
+    encodeEarlyG cc (Sched.ofFaults F) o c e h ms = .ret (encodeEarlyCtx cc F o c e h ms) := by
+  unfold encodeEarlyG encodeEarlyCtx
+  rw [dryPassG_ctx o ms c e.es e.dataSize hs.lru]
+  simp only [Run.bind]
+  cases hd : dryPassCtx o c e.es e.dataSize ms with
+  | mk c' r =>
+    cases r with
+    | none => rfl
+    | some dry =>
+      simp only
+      rw [encodeBodyG_ctx F o c' (e.reset o) h dry.1 dry.2 hn (hs.reset o ho)]
+
+/-- ON CONTRACT-ABIDING SCHEDULES THE GUARDED MODEL RETURNS EXACTLY WHAT THE MODEL WITH CANCELLATION POINTS SAYS (any context,
+also on an encoder left on `io.Discard`) -/
+theorem encodeVG_ctx {σ : Type} (V : MsgValidator σ) (cc : CtxCfg) (F : Faults) (o : Opts) (c : Ctx) (x : EncC) (f : FitIn)
+    (hn : HdrNorm f.hdr) (ho : 0 < o.lruCap) (hs : x.e.Safe) :
+    encodeVG V cc false (Sched.ofFaults F) o c x f = .ret (encodeCtxV V cc F o c x f) := by
+  unfold encodeVG encodeCtxV
+  split
+  · rfl
+  · split
+    · rfl
+    · cases hv : validateAll V V.init f.msgs with
+      | none => rfl
+      | some ms' =>
+        simp only
+        unfold encodeG encodeCtx
+        simp only [Bool.false_eq_true, if_false]
+        by_cases hd : x.discard = true
+        · simp only [hd, if_true]
+          rw [dryPassG_ctx o ms' none x.e.es x.e.dataSize hs.lru]
+          simp only [Run.bind, guarded, hdrSliceOK_of hn, if_true]
+          rw [dryPassG_ctx o ms' none (freshEnc o) 0 (LruOK.empty _ ho)]
+          cases x with
+          | mk xe xd =>
+            simp only at hd
+            subst hd
+            rfl
+        · simp only [hd, Bool.false_eq_true, if_false]
+          by_cases hk : x.e.w.kind.direct = true
+          · simp only [hk, if_true]
+            rw [encodeDirectG_ctx F o c x.e f.hdr f.ds0 ms' hn hs]
+            simp only [Run.bind]
+            split
+            · rfl
+            · obtain ⟨r, r1, r2, _⟩ := encodeDirectG_spec (Sched.ofFaults F) o c x.e f.hdr f.ds0 ms' hn hs
+              have hr := Run.ret_inj (r1.symm.trans (encodeDirectG_ctx F o c x.e f.hdr f.ds0 ms' hn hs))
+              have hs' := (hr ▸ r2 : (encodeDirectCtx F o c x.e f.hdr f.ds0 ms').1.Safe).reset o ho
+              rw [flushG_ret _ _ hs'.buf, W.flushR_ofFaults]
+          · simp only [hk, Bool.false_eq_true, if_false]
+            rw [encodeEarlyG_ctx cc F o c x.e f.hdr ms' hn ho hs]
+            simp only [Run.bind]
+            split
+            · rfl
+            · obtain ⟨r, r1, r2, _⟩ := encodeEarlyG_spec cc (Sched.ofFaults F) o c x.e f.hdr ms' hn ho hs
+              have hr := Run.ret_inj (r1.symm.trans (encodeEarlyG_ctx cc F o c x.e f.hdr ms' hn ho hs))
+              have hs' := (hr ▸ r2 : (encodeEarlyCtx cc F o c x.e f.hdr ms').1.Safe).reset o ho
+              rw [flushG_ret _ _ hs'.buf, W.flushR_ofFaults]
 
 end Fit.Writer
